@@ -283,4 +283,11 @@ def r3_no_wrap(ctx):
         r.ok("no-wrap", "no lossy cast and no overflow assertion on the multiplier path")
 
 
-RULES = [r1_confinement, r2_formula, r3_no_wrap]
+def shared(ctx):
+    """the floor of 2 on the step applies from TIP-901: seal must hand tip_901() to the step, and tip_901 must test TIP_901_HEIGHT (C06.R5)"""
+    from rules.engine import core
+    from rules.props import c06
+    core.import_rules(ctx, [c06.r5_activation_table], "X06")
+
+
+RULES = [r1_confinement, r2_formula, r3_no_wrap, shared]
